@@ -240,6 +240,64 @@ func (g *gen) opAlias() bool {
 	return true
 }
 
+// opAliasTokens: two REAL tokens whose storage keys alias (C11: "token ids that alias other keys when concatenated with a
+// nonce" — in the state, not only in the arguments; reachable with ESDTSetRole / ESDTLocalMint / ESDTNFTCreate alone):
+//   (a) a fungible token T‖n next to the NFT (T, n): the fungible one is credited onto the NFT's holder (F9);
+//   (b) an NFT collection T‖01 next to the NFT (T, 0x01‖k): both entries carry metadata, with different nonces, under one key;
+// then credits of one onto the holder of the other — inside a same-shard sender call or as a delivery on another shard.
+func (g *gen) opAliasTokens() bool {
+	x, ok := g.pickHeld(isNFT)
+	if !ok {
+		return false
+	}
+	if g.r.Intn(2) == 0 {
+		b := g.otherThan(x.a, nil)
+		f := append(append([]byte{}, x.h.tok...), x.h.nb()...)
+		g.do(g.sys(oracle.FnSetRole, b, f, []byte(oracle.RoleLocalMint)))
+		g.do(g.user(oracle.FnLocalMint, b, b, bigGas, f, []byte{9}))
+		switch g.r.Intn(3) {
+		case 0:
+			g.do(g.user(oracle.FnTransfer, b, x.a, bigGas, f, []byte{1}))
+		case 1:
+			g.do(g.user(oracle.FnMultiTransfer, b, b, bigGas, x.a, be(1), f, []byte{}, []byte{1}))
+		default:
+			g.do(g.user(oracle.FnMultiTransfer, b, b, bigGas, x.a, be(2), f, []byte{0}, []byte{2}, f, []byte{}, []byte{1}))
+		}
+		// and the NFT onto the holder of the fungible one
+		g.do(g.user(oracle.FnNFTTransfer, x.a, x.a, bigGas, x.h.tok, x.h.nb(), []byte{1}, b))
+		return true
+	}
+	t := x.h.tok
+	cr := g.creatorOf(t)
+	if cr == nil {
+		return false
+	}
+	g.aliasN++
+	k := uint64(g.aliasN%200 + 1)
+	// the creator's counter is set to 0x0100 + k − 1: its next NFT is (T, 0x01‖k)
+	g.emitf("raw %d %s %s %s", g.shardOf(cr), hx(cr), hx([]byte(oracle.NoncePrefix+string(t))), hx(be(256+k-1)))
+	g.do(g.user(oracle.FnNFTCreate, cr, cr, bigGas, g.createArgs(t, 1, 1)...))
+	t2 := append(append([]byte{}, t...), 1)
+	c2 := g.otherThan(cr, nil)
+	g.do(g.sys(oracle.FnSetRole, c2, t2, []byte(oracle.RoleNFTCreate), []byte(oracle.RoleNFTAddQty)))
+	if k > 1 {
+		g.emitf("raw %d %s %s %s", g.shardOf(c2), hx(c2), hx([]byte(oracle.NoncePrefix+string(t2))), hx(be(k-1)))
+	}
+	g.do(g.user(oracle.FnNFTCreate, c2, c2, bigGas, g.createArgs(t2, uint64(1+g.r.Intn(2)), 1)...))
+	// (T‖01, k) onto the holder of (T, 0x01‖k) and the other way round
+	if g.r.Intn(2) == 0 {
+		g.do(g.user(oracle.FnNFTTransfer, c2, c2, bigGas, t2, be(k), []byte{1}, cr))
+	} else {
+		g.do(g.user(oracle.FnMultiTransfer, c2, c2, bigGas, cr, be(1), t2, be(k), []byte{1}))
+	}
+	if g.r.Intn(2) == 0 {
+		g.do(g.user(oracle.FnNFTTransfer, cr, cr, bigGas, t, be(256+k), []byte{1}, c2))
+	} else {
+		g.do(g.user(oracle.FnMultiTransfer, cr, cr, bigGas, c2, be(1), t, be(256+k), []byte{1}))
+	}
+	return true
+}
+
 // mintAmount: {0, 1, bal, bal+1, 2^k, 100-byte, 101-byte, random}.
 func (g *gen) supplyAmount(bal *big.Int) []byte {
 	switch g.r.Intn(16) {
